@@ -15,6 +15,8 @@ def run(tier, seed):
             cases.append(Case('ecdsa_a%d_seed_%d' % (algo, n), 'crypto', 'zzC12_ecdsa', [algo, n], opts={'big_len_set': blens}))
     for n in ([32, 33, 64, 256] if thorough else [32, 256]):
         cases.append(Case('bls_retry_seed_%d' % n, 'crypto', 'zzC12_bls', [n], opts={'setup': GB, 'force_first_zero': True, 'symbolic_only': True}))
+    for mode in range(4):
+        cases.append(Case('aggregated_mode%d' % mode, 'crypto', 'zzC12_aggregated', [mode], opts={'setup': GB}))
     cases.append(Case('concurrent_bls', 'crypto', 'zzC12_concurrent', [0], opts={'setup': GB}))
     for a in (1, 2):
         cases.append(Case('concurrent_ecdsa_a%d' % (a - 1), 'crypto', 'zzC12_concurrent', [a], opts={'big_len_set': blens}))
